@@ -164,3 +164,34 @@ Check C05_blinded_at_domain : forall (PR : PrimeR) num_coeffs ev b i,
   let x := fpow_nat (domain_gen k) i in
   fadd (peval (ifft num_coeffs ev) x) (fmul (peval b x) (vanishing_eval k x)) = nth i ev fzero.
 Print Assumptions C05_blinded_at_domain.
+
+(* converse for the copy constraints with explicit counting (the deterministic core of the Schwartz-Zippel
+   step): if the permutation products close for more than (4n)^2 values of beta and, for each, more than 4n
+   values of gamma, every compiled copy constraint holds.  So with violated copy constraints at most
+   16 n^2 values of beta let the product close for all but 4n gammas. *)
+Theorem C05_copies_from_closing : forall (PR : PrimeR) rows asg k sigma (Bs Gs : list Fr),
+  (1 <= k <= 32)%nat -> nrows rows = Nat.pow 2 k ->
+  let n := Nat.pow 2 k in
+  let w := domain_gen k in
+  Permutation (map sigma (positions n)) (positions n) ->
+  NoDup Bs -> (4 * n * (4 * n) < length Bs)%nat ->
+  NoDup Gs -> (4 * n < length Gs)%nat ->
+  (forall beta gamma, In beta Bs -> In gamma Gs ->
+     fprod (map (pnum w (col_a rows asg) (col_b rows asg) (col_c rows asg) (col_d rows asg) beta gamma) (seq 0 n))
+     = fprod (map (pden (col_a rows asg) (col_b rows asg) (col_c rows asg) (col_d rows asg)
+                        (sg w sigma 0) (sg w sigma 1) (sg w sigma 2) (sg w sigma 3) beta gamma) (seq 0 n))) ->
+  forall p, In p (positions n) -> wv rows asg (sigma p) = wv rows asg p.
+Proof. exact @copies_from_closing. Qed.
+Check C05_copies_from_closing : forall (PR : PrimeR) rows asg k sigma (Bs Gs : list Fr),
+  (1 <= k <= 32)%nat -> nrows rows = Nat.pow 2 k ->
+  let n := Nat.pow 2 k in
+  let w := domain_gen k in
+  Permutation (map sigma (positions n)) (positions n) ->
+  NoDup Bs -> (4 * n * (4 * n) < length Bs)%nat ->
+  NoDup Gs -> (4 * n < length Gs)%nat ->
+  (forall beta gamma, In beta Bs -> In gamma Gs ->
+     fprod (map (pnum w (col_a rows asg) (col_b rows asg) (col_c rows asg) (col_d rows asg) beta gamma) (seq 0 n))
+     = fprod (map (pden (col_a rows asg) (col_b rows asg) (col_c rows asg) (col_d rows asg)
+                        (sg w sigma 0) (sg w sigma 1) (sg w sigma 2) (sg w sigma 3) beta gamma) (seq 0 n))) ->
+  forall p, In p (positions n) -> wv rows asg (sigma p) = wv rows asg p.
+Print Assumptions C05_copies_from_closing.
